@@ -68,39 +68,15 @@ def _lhs(e: ast.AST, resolve, at) -> str:
     return unparse(e)
 
 
-def as_freq_names(chk) -> Dict[str, str]:
-    """Local names of as_freq's result frame, coverage counter and total counter, found structurally:
-    `<R>['coverage'] = <NC> / <NT>` with `<NT> = <R>.resample(atomic_freq).count().resample(freq, origin=<R>.index[0]).count()`."""
-    from engine.pattern import PatCtx
-    f = chk.repo.func(DPU, "as_freq")
-    pc = PatCtx(f.node)
-    ok = pc.has("_NT_ = _R_.resample(atomic_freq).count().resample(freq, origin=_R_.index[0]).count()") and pc.has("_R_['coverage'] = _NC_ / _NT_")
-    if not ok:
-        return {}
-    return {"R": pc.name("_R_"), "NC": pc.name("_NC_"), "NT": pc.name("_NT_")}
-
-
 def as_freq_branches(chk) -> Dict[str, Dict[str, str]]:
-    """series_type literal -> {'value': aggregator of the value, 'coverage': aggregator of the coverage counter}."""
-    f = chk.repo.func(DPU, "as_freq")
-    cfg = CFG(f.node)
-    nm = as_freq_names(chk)
-    if not nm:
-        raise AnalysisError("as_freq: cannot identify the result / coverage counters (`<R>['coverage'] = <n present> / <n total>` not found)")
-    rd = ReachingDefs(f.node, cfg)
-    out: Dict[str, Dict[str, str]] = {}
-    for s in cfg.stmts():
-        if isinstance(s, ast.Assign) and isinstance(s.targets[0], ast.Name) and s.targets[0].id in (nm["R"], nm["NC"]) and isinstance(s.value, ast.Call) and isinstance(s.value.func, ast.Attribute):
-            inner = s.value.func.value
-            if isinstance(inner, ast.Call) and isinstance(inner.func, ast.Attribute) and inner.func.attr == "resample" and isinstance(inner.func.value, ast.Name):
-                # the resampled series must be the atomic (asfreq'd) series of this branch
-                src = [rd.value_of(d) for d in rd.reaching(s, inner.func.value.id)]
-                if not src or not all(isinstance(v, ast.Call) and isinstance(v.func, ast.Attribute) and v.func.attr == "asfreq" for v in src):
-                    continue
-                for t, pol in cfg.guards(s):
-                    if pol and isinstance(t, ast.Compare) and unparse(t.left) == "series_type" and const_str(t.comparators[0]):
-                        out.setdefault(const_str(t.comparators[0]), {})["value" if s.targets[0].id == nm["R"] else "coverage"] = s.value.func.attr
-    return out
+    """series_type literal -> {'value': aggregator of the value, 'coverage': aggregator of the coverage counter}; read off the symbolic
+    interpretation of as_freq (rules/asfreq_absint.py), cached per check."""
+    cache = getattr(chk, "_as_freq_branches", None)
+    if cache is None:
+        from rules.asfreq_absint import branches
+        cache = branches(chk)
+        chk._as_freq_branches = cache
+    return cache
 
 
 def rescale_sites(chk, f: FuncInfo) -> List[Tuple[ast.stmt, str]]:
